@@ -24,6 +24,7 @@ def run(prog: Program, res: Result, tier: str) -> None:
     hashrules.check_hash_pure(prog, res)
     hashrules.check_stop_invariant(prog, res)
     hashrules.check_roles(prog, res)
+    hashrules.check_final_hash(prog, res)
     eqrules.check_empty_guard(prog, res)
     C04.check_tables(prog, res)
     for name in DESCRIPTOR_CLASSES:
